@@ -5,9 +5,9 @@ sys.path.insert(0, os.path.dirname(os.path.abspath(__file__)))
 from common import rng
 
 FAMILY = "ladder"
-HARNESS = {"source": "x_ladder.c", "exclude_objs": ["loop"], "leak_clean": True}
+HARNESS = {"source": "x_ladder.c", "exclude_objs": ["loop", "parser"], "leak_clean": True}
 ENV = {"VERIF_LEAKCHECK": "1"}
-RULE = ("getpackets: 1, 2, 3, 9 names and 10 names of one uthash bucket x every fault position; nextpacket: packets of 1..10 items with unknown / "
+RULE = ("loophdr: parse_loop on a header of n = 1..6 (15) names + a refused duplicate x every fault position; getpackets: 1, 2, 3, 9 names and 10 names of one uthash bucket x every fault position; nextpacket: packets of 1..10 items with unknown / "
         "text / number / list / table (nested) values, handed over or dropped x every fault position; vclone / vdeser: cif_value_clone / cif_value_deserialize of value trees with tables at any depth (12 hand-picked: empty tables, "
         "table in list in table, a bucket expansion inside a nested table; 25 / 400 random trees of depth <= 3) x every fault position; "
         "namesnorm: n = 1..5 names x every fault position; deser of table blobs: 0, 1, 3 and 11 (one bucket) keys x value "
@@ -293,6 +293,11 @@ def generate(seed, tier):
         yield q
     for q in iter_requests(r, tier):
         yield q
+    # parse_loop_header + parse_loop's release of the name list: n distinct names and a refused repetition of the first
+    for n in (range(1, 7) if tier == "quick" else range(1, 16)):
+        total = sum(5 + 3 * i for i in range(n)) + 8
+        for k in range(0, total + 2):
+            yield "ladder loophdr %d %d" % (n, k)
     # cif_packet_create: at most 9 names, so that no uthash bucket can reach the expansion threshold of 10 entries
     flagsets = ["-", "n", "r", "nn", "nr", "rn", "rr", "nrn", "rrn", "nnnn", "rnrnr", "rrrrrrrrr", "nnnnnnnnn"]
     flagsets += ["".join(r.choice("nr") for _ in range(r.randint(1, 9))) for _ in range(6 if tier == "quick" else 80)]
@@ -384,6 +389,11 @@ def oracle(req, impl):
     if "!ITEM" in impl:
         return "an item of the map cannot be retrieved after the call"
     if fails == "-":
+        if t[1] == "loophdr":
+            # the refused duplicate name ends the parse with the callback's code; the header's name list must be gone
+            if rc != "41":
+                return "no allocation failed but parse_loop returned %s instead of the refused CIF_DUP_ITEMNAME" % rc
+            return None if live == "-" else "parse_loop left blocks %s of the header live" % live
         if t[1] == "mapdel" and rc == "43":
             # CIF_NOSUCH_ITEM is the documented answer for a key that is not in the map
             keys = [x.split(":")[-1] for x in t[4:4 + int(t[3])]]
